@@ -118,6 +118,30 @@ def main():
             st = stm[:]; ck.rng.shuffle(st)
             src = "package p\n\nfunc h() {\n\t" + "\n\t".join(st) + "\n}\n"
             pairs.append(("p.patch", ptxt.encode(), "a.go", src.encode())); names.append("multi:" + nm); metas.append({"family": "multi:" + nm})
+    # ---- both kinds in one change: an identifier metavariable in a slot that also holds calls, selectors, index and
+    # parenthesised expressions, AFTER sites at which the expression metavariable met exactly those node types (and the
+    # other way round): a kind test must not depend on what was tested before, within a file or across sites
+    KINDS = [("@@\nvar f identifier\nvar x expression\n@@\n-f(x)\n+f(x, nil)\n",
+              ["foo(bar())", "foo(a.b)", "foo((c))", "foo(m[1])", "mk()(1)", "a.b(2)", "(g)(3)", "fs[0](4)", "foo(func() {}())", "func() {}()", "named(5)"]),
+             ("@@\nvar f identifier\nvar x expression\n@@\n-x.f\n+x.F(f)\n",
+              ["_ = a.b", "_ = g().h", "_ = (p).q", "_ = m[1].r", "_ = a.b.c", "_ = s.t().u"]),
+             ("@@\nvar v identifier\nvar e expression\n@@\n-v = e\n+set(&v, e)\n",
+              ["a = f()", "b = c.d", "m[0] = g()", "p.q = 1", "(r) = 2", "*s = 3", "t = (u)", "w = m[1]"])]
+    for ptxt, sites in KINDS:
+        for rep in range(6 if thorough else 3):
+            st = sites[:]; ck.rng.shuffle(st)
+            src = "package p\n\nfunc h() {\n\t" + "\n\t".join(st) + "\n}\n"
+            pairs.append(("p.patch", ptxt.encode(), "a.go", src.encode())); names.append("both-kinds"); metas.append({"family": "both-kinds"})
+    # ---- deep code: repeated metavariables whose fillers differ only far down (20-40 levels), deep literal patterns
+    def nest(d, leaf, w="w"):
+        return (w + "(") * d + leaf + ")" * d
+    deep_src = ["same(%s, %s)" % (nest(d, a), nest(d, b)) for d in (2, 8, 14, 17, 20, 30, 40) for a, b in (("1", "1"), ("1", "2"), ("alpha", "beta"))]
+    deep_src += ["check(%s)" % nest(d, l) for d in (14, 20, 30) for l in ("alpha", "beta")]
+    deep_src += ["same(func() { if a { if b { for { switch { case c: go func() { x.y.z(%s) }() } } } } }, func() { if a { if b { for { switch { case c: go func() { x.y.z(%s) }() } } } } })" % ab for ab in ((1, 1), (1, 2))]
+    src = "package p\n\nfunc h() {\n\t" + "\n\t".join(deep_src) + "\n}\n"
+    pairs.append(("p.patch", b"@@\nvar x expression\n@@\n-same(x, x)\n+once(x)\n", "a.go", src.encode())); names.append("deep-fillers"); metas.append({"family": "deep"})
+    for d in (14, 20, 30):
+        pairs.append(("p.patch", ("@@\n@@\n-check(%s)\n+checked()\n" % nest(d, "alpha")).encode(), "a.go", src.encode())); names.append("deep-literal"); metas.append({"family": "deep"})
     # ---- a metavariable before and after two or more elisions: every way of cutting the list must be tried under every binding
     import itertools
     SW = [("x-2dots", "var x expression", "f(..., x, ..., x)", "g(x)"), ("xy-3dots", "var x, y expression", "f(..., x, ..., y, ..., x)", "g(x, y)"),
